@@ -127,11 +127,30 @@ def model_sources(defaults, user, sfile, cli_flat):
     return [cli_flat or {}, sfile or {}, user or {}, defaults]
 
 
+UNION = 'input.exclude_filters'
+
+
+def union_wrong_typed(user, sfile):
+    """the sources whose value for the union option is not a list.  The union reads EVERY source, so such a value is a
+    wrong-typed value wherever it sits, also below a source that supplies a proper list"""
+    return [n for n, src in (('s', sfile), ('u', user)) if src and UNION in src and not isinstance(src[UNION], list)]
+
+
 def compare(env, defaults, user, sfile, cli_args, cli_flat, out, drv, key, rel=False):
     st, got = env.run(user, sfile, cli_args)
     out.traces_validated += 1
     mo = drv.run([dict(op='config', sources=model_sources(defaults, user, sfile, cli_flat))])[0]
     rec = dict(suite='config', key=key, user=user, sfile=sfile, cli=cli_args)
+    bad = union_wrong_typed(user, sfile)
+    if bad:
+        # the union reads every source, so the model (`Config.resolveMain`, theorem C16_filters_any_source_rejected) and the code reject
+        # a non-list wherever it stands
+        if (st == 'error') != ('err' in mo):
+            out.disagreements.append(dict(rec, detail=dict(kind='wrong-typed union option: model and real main differ', real=st, model=mo)))
+        if st != 'error':
+            out.violations.append(dict(rec, detail=dict(kind='wrong-typed value of the union option accepted in some source', option=UNION,
+                                                        sources=bad, effective=got.get(UNION)), model_agrees='err' not in mo))
+        return st
     if st == 'error':
         if 'err' not in mo:
             out.disagreements.append(dict(rec, detail=dict(kind='real main failed, model resolves', real=got, model=mo)))
@@ -237,6 +256,16 @@ def config_suite(seed, tier, out, drv):
                     if st != 'error':
                         out.violations.append(dict(rec, detail=dict(kind='wrong-typed value accepted or silently replaced', option=k, value=bad,
                                                                     effective=got.get(k)), model_agrees='err' not in mo))
+        # the union option takes its patterns from ALL sources: a wrong-typed value is rejected in whichever source it sits,
+        # for every set of well-typed higher-priority sources above it and with or without a well-typed one below it
+        k = UNION; ty, uv, sv, cli = OPTS[k]
+        for bad in WRONG[ty]:
+            for where, useC, useS, useU in (('s', 1, 0, 0), ('s', 1, 0, 1), ('u', 1, 0, 0), ('u', 0, 1, 0), ('u', 1, 1, 0), ('su', 1, 0, 0)):
+                user = {k: bad} if 'u' in where else ({k: uv} if useU else None)
+                sfile = {k: bad} if 's' in where else ({k: sv} if useS else None)
+                key = ('wrongtype-below', k, repr(bad), where, useC, useS, useU)
+                st = compare(env, defaults, user, sfile, cli[0] if useC else [], {k: cli[1]} if useC else {}, out, drv, key)
+                out.note_case(key, True); out.dist['wrong-type:' + ('rejected' if st == 'error' else 'ACCEPTED')] += 1; n += 1
         # --- random multi-option combinations ---------------------------------------------------------------------------
         for i in range(60 if tier == 'quick' else 2500):
             user, sfile, cli_args, cli_flat = {}, {}, [], {}
